@@ -740,6 +740,17 @@ func checkC11(c *Ctx) {
 			w.Sample(map[string]interface{}{"format": q(f), "out": q(string(redact.Sprintf(f, c11ArgLists[1]...)))})
 		}
 	})
+	nfs := numberFormats()
+	c.Section("C11/number-formats", map[string]interface{}{"formats": len(nfs), "arg_lists": len(c11ArgLists), "what": "argument index / width / precision / indexed star with 0, 00, signs, blanks, empty and limit neighbours"}, len(nfs), func(i int, w *Worker) {
+		for ai := range c11ArgLists {
+			w.Eval()
+			if d := c11Format(nfs[i], ai); d != "" {
+				w.Fail("format", map[string]interface{}{"F": []byte(nfs[i]), "A": ai, "quoted": q(nfs[i])}, d)
+			}
+		}
+		w.SeenS(nfs[i])
+	})
+	replayers["C11/number-formats"] = replayers["C11/formats"]
 	c.Section("C11/formats-2byte", map[string]interface{}{"formats": "all 1- and 2-byte strings, and '%'+ all 2-byte strings"}, 65536, func(i int, w *Worker) {
 		b0, b1 := byte(i>>8), byte(i)
 		fs := []string{string([]byte{b0, b1}), "%" + string([]byte{b0, b1})}
